@@ -144,18 +144,43 @@ func ListenAddr(tr string) string {
 		}
 		return "ipc://" + p
 	case "tcp":
-		return "tcp://127.0.0.1:0"
+		return "tcp://" + OwnIP() + ":0"
 	case "tls+tcp":
-		return "tls+tcp://127.0.0.1:0"
+		return "tls+tcp://" + OwnIP() + ":0"
 	case "ws":
-		return "ws://127.0.0.1:0/" + Uniq("p")
+		return "ws://" + OwnIP() + ":0/" + Uniq("p")
 	case "wss":
-		return "wss://127.0.0.1:0/" + Uniq("p")
+		return "wss://" + OwnIP() + ":0/" + Uniq("p")
 	case "vt":
 		return "vt://" + Uniq("vt")
 	}
 	panic("transport " + tr)
 }
+
+// OwnIP is a loopback address that belongs to this process alone (the whole of 127/8 is local on
+// Linux).  Listeners made for a case bind it instead of 127.0.0.1, so that a dialer of another
+// process on the machine (another shard of the check, another check) that is still redialling an
+// ephemeral port it once knew can never reach them when the kernel hands that port number out
+// again — a stray connection would otherwise be counted as traffic of the socket under test.
+func OwnIP() string {
+	ownIPOnce.Do(func() {
+		pid := os.Getpid()
+		ownIP = fmt.Sprintf("127.%d.%d.%d", 128+(pid>>15)&0x7f, (pid>>7)&0xff, 1+pid&0x7f)
+		// fall back to the classic address where the range is not usable
+		l, err := net.Listen("tcp", ownIP+":0")
+		if err != nil {
+			ownIP = "127.0.0.1"
+			return
+		}
+		l.Close()
+	})
+	return ownIP
+}
+
+var (
+	ownIPOnce sync.Once
+	ownIP     string
+)
 
 func NeedsTLS(tr string) bool { return tr == "tls+tcp" || tr == "wss" }
 
@@ -175,7 +200,7 @@ func TlsConfigs() (*tls.Config, *tls.Config) {
 		t := &x509.Certificate{SerialNumber: big.NewInt(2), Subject: pkix.Name{CommonName: "127.0.0.1"},
 			NotBefore: time.Now().Add(-time.Hour), NotAfter: time.Now().Add(240 * time.Hour),
 			KeyUsage: x509.KeyUsageDigitalSignature, ExtKeyUsage: []x509.ExtKeyUsage{x509.ExtKeyUsageServerAuth, x509.ExtKeyUsageClientAuth},
-			IPAddresses: []net.IP{net.ParseIP("127.0.0.1")}, DNSNames: []string{"localhost"}}
+			IPAddresses: []net.IP{net.ParseIP("127.0.0.1"), net.ParseIP(OwnIP())}, DNSNames: []string{"localhost"}}
 		der, _ := x509.CreateCertificate(crand.Reader, t, caCert, &key.PublicKey, caKey)
 		pool := x509.NewCertPool()
 		pool.AddCert(caCert)
